@@ -210,7 +210,9 @@ func c05Grid(r *rand.Rand, extra int) []CmpVal {
 		// wider than the 34 digits of the arithmetic context: literals (and data decimals below) are exact at any width
 		"1000000000000000000000000000000000000", "1000000000000000000000000000000000001", "1234567890123456789012345678901234567890", "1234567890123456789012345678901234567891",
 		"0.1234567890123456789012345678901234567890", "0.1234567890123456789012345678901234567891", "99999999999999999999999999999999999", "100000000000000000000000000000000000",
-		"1e-6200", "2e-6200", "1e-7000", "1e-6999", "1e-6143", "1e-6176", "9e-6177", "1e6100", "9e6099", "1.5e6000", "1e6144", "1e-6100", "0e-7000", "123456789012345678", "123456789012345679", "9007199254740993", "9007199254740992", "100", "1e2", "99.99", "-0.5", "12.5", "0.1", "0.2"} {
+		"1e-6200", "2e-6200", "1e-7000", "1e-6999", "1e-6143", "1e-6176", "9e-6177", "1e6100", "9e6099", "1.5e6000", "1e6144", "1e-6100", "0e-7000", "123456789012345678", "123456789012345679", "9007199254740993", "9007199254740992", "100", "1e2", "99.99", "-0.5", "12.5", "0.1", "0.2",
+		// one number in several spellings (either case of the exponent letter, padded fractions, exponents ending in zero)
+		"1.5E10", "1.5e10", "1.50E10", "15000000000", "15E9", "1.5E+10", "0.15E11", "2.50E-10", "2.5e-10", "25E-11", "1.0E100", "1E100", "10.0e99"} {
 		lit(s)
 	}
 	ar := func(op, a, b string) {
